@@ -1474,6 +1474,10 @@ class EArray(Engine):
             if self.dt.cls != 'float':
                 return {'skip': 'undecodable items need a float dtype'}
             k = 10 ** 400
+        if isinstance(k, int) and what == 'read' and abs(k) < 10 ** 6:
+            # an equal scale of the other numeric type was used a moment ago: 2 and 2.0 are different scales (int items stay int)
+            call(lambda: B.Array(B.Dtype(self.dt.key, scale=float(k)), []).tolist())
+            self.probe('scaled:equal-scale-of-other-type-first')
         st, ds = call(B.Dtype, self.dt.key, scale=k)
         if st != 'ok':
             return {'skip': 'no scaled Dtype for this key'}
@@ -1487,7 +1491,7 @@ class EArray(Engine):
         self.probe('scaled:twin-built')
 
         def same(a, b):
-            return a == b or (a != a and b != b)
+            return (a == b and type(a) is type(b)) or (a != a and b != b)
 
         def times(u):
             try:
